@@ -88,9 +88,15 @@ def lexer_decoder(run: Run, lx: Module) -> Decoder:
         raise AnalysisError("tokenize: `token_type == TokenType.STRING` branch not found")
     chain: list[tuple[str, str]] = []
     first_node = None
+    # statements of the branch, plus the bodies of lexer helpers the branch calls (the decoding may have been extracted)
+    stmts: list[ast.AST] = list(branch.body)
     for st in branch.body:
+        for c in ast.walk(st):
+            if isinstance(c, ast.Call) and isinstance(c.func, ast.Name) and lx.has_func(c.func.id):
+                stmts += list(lx.func(c.func.id).node.body)  # type: ignore[attr-defined]
+    for st in stmts:
         for n in ast.walk(st):
-            if isinstance(n, ast.Assign) and isinstance(n.value, ast.Call):
+            if isinstance(n, (ast.Assign, ast.Return)) and isinstance(n.value, ast.Call):
                 rc = replace_chain(n.value)
                 if rc:
                     chain.extend(rc[1])
@@ -270,10 +276,23 @@ def check_number_lexemes(run: Run, rule: str, lm: lexmodel.LexModel) -> None:
     fi = lx.func("tokenize")
     from ..cfg import CFG, branch_conditions
 
-    cfg = CFG(fi.node)
-    convs = [n for n in walk_no_nested(fi.node) if isinstance(n, ast.Call) and isinstance(n.func, ast.Name) and n.func.id in ("int", "float") and n.args and isinstance(n.args[0], ast.Name) and n.args[0].id == "matched_text"]
+    lexvar = "matched_text"
+    convs = [n for n in walk_no_nested(fi.node) if isinstance(n, ast.Call) and isinstance(n.func, ast.Name) and n.func.id in ("int", "float") and n.args and isinstance(n.args[0], ast.Name) and n.args[0].id == lexvar]
     if len(convs) < 2:
-        raise AnalysisError("tokenize: int(matched_text)/float(matched_text) conversions not found")
+        # the conversion may live in a helper of the lexer module that receives the lexeme
+        for c in walk_no_nested(fi.node):
+            if isinstance(c, ast.Call) and isinstance(c.func, ast.Name) and lx.has_func(c.func.id) and any(isinstance(a, ast.Name) and a.id == lexvar for a in c.args):
+                helper = lx.func(c.func.id)
+                idx = [i for i, a in enumerate(c.args) if isinstance(a, ast.Name) and a.id == lexvar][0]
+                hp = [a.arg for a in helper.node.args.args]  # type: ignore[attr-defined]
+                if idx < len(hp):
+                    hc = [n for n in walk_no_nested(helper.node) if isinstance(n, ast.Call) and isinstance(n.func, ast.Name) and n.func.id in ("int", "float") and n.args and isinstance(n.args[0], ast.Name) and n.args[0].id == hp[idx]]
+                    if len(hc) >= 2:
+                        fi, convs, lexvar = helper, hc, hp[idx]
+                        break
+    if len(convs) < 2:
+        raise AnalysisError("tokenize: int(<lexeme>)/float(<lexeme>) conversions not found (neither inline nor in a helper receiving matched_text)")
+    cfg = CFG(fi.node)
     for c in convs:
         nodes = cfg.node_for_stmt_containing(c)
         handled = False
@@ -291,7 +310,7 @@ def check_number_lexemes(run: Run, rule: str, lm: lexmodel.LexModel) -> None:
                           failing_input="A:: followed by more digits than the interpreter's int-string limit")
         if c.func.id == "float":  # type: ignore[union-attr]
             st = getattr(c, "_parent", None)
-            var = st.targets[0].id if isinstance(st, ast.Assign) and isinstance(st.targets[0], ast.Name) else None
+            var = st.targets[0].id if isinstance(st, ast.Assign) and isinstance(st.targets[0], ast.Name) else (st.target.id if isinstance(st, ast.AnnAssign) and isinstance(st.target, ast.Name) else None)
             finite = False
             tok_nodes = [n.id for n in cfg.nodes if n.ast is not None and any(isinstance(k, ast.Call) and ast.unparse(k.func) == "Token" for k in ast.walk(n.ast)) and n.kind == "stmt"]
             tests = [n for n in cfg.nodes if n.kind == "test" and n.ast is not None and var and var in {x.id for x in ast.walk(n.ast) if isinstance(x, ast.Name)} and ("isfinite" in ast.unparse(n.ast) or "inf" in ast.unparse(n.ast) or "isinf" in ast.unparse(n.ast))]
